@@ -217,6 +217,11 @@ def rebuild_params(p, rng):
     return q
 
 
+def params_state(p):
+    return [(n, fhex(q.value), fhex(q.min), fhex(q.max), bool(q.vary),
+             q.expr) for n, q in p.items()]
+
+
 def default_params(model_key):
     from nanite import model
     return model.models_available[model_key].get_parameter_defaults()
@@ -600,21 +605,24 @@ class HashWalkEngine:
             # created without any, a fitter given that guess explicitly and
             # fit_model() without any describe the same fit
             if op.get("implicit"):
-                hn = self.fresh_hash(live, cfg, perturb, rng, "none")
-                hg = self.fresh_hash(live, cfg, perturb, rng, "guess")
-                oracle_checks += 1
-                probes["H4 implicit initial parameters compared"] += 1
+                hn, guess = self.fresh_hash(live, cfg, perturb, rng, "none")
                 bad = None
-                if hn != hg:
-                    bad = ("fitter-without-parameters", hn,
-                           "guess passed explicitly", hg)
-                elif not str(hn).startswith("raises:") and \
-                        op["implicit"] == "fit_model":
-                    hm = self.fresh_hash(live, cfg, perturb, rng,
-                                         "fit_model")
-                    if hm is not None and hm != hn:
-                        bad = ("fit_model-without-parameters", hm,
-                               "fitter without parameters", hn)
+                if guess is not None:
+                    hg = self.fresh_hash(live, cfg, perturb, rng, "guess",
+                                         guess)
+                    oracle_checks += 1
+                    probes["H4 implicit initial parameters compared"] += 1
+                    if hn != hg:
+                        bad = ("fitter-without-parameters", hn,
+                               "its own choice passed explicitly", hg)
+                    elif op["implicit"] == "fit_model":
+                        hm, pm = self.fresh_hash(live, cfg, perturb, rng,
+                                                 "fit_model")
+                        if hm is not None and pm is not None and \
+                                params_state(pm) == params_state(guess) \
+                                and hm != hn:
+                            bad = ("fit_model-without-parameters", hm,
+                                   "fitter without parameters", hn)
                 if bad:
                     feats["route"] = bad[0]
                     violation = viol(
@@ -654,14 +662,16 @@ class HashWalkEngine:
                 "nontrivial": ncanon >= 3 and special,
                 "oracle_checks": oracle_checks, "ops_executed": executed}
 
-    def fresh_hash(self, live, cfg, perturb, rng, pinit_mode="explicit"):
+    def fresh_hash(self, live, cfg, perturb, rng, pinit_mode="explicit",
+                   guess=None):
         """Hash of a freshly built object that gets the live object's stored
         settings in another order and other representations.
 
         `pinit_mode`: "explicit" - the stored initial parameters; "none" -
-        no initial parameters at all (the fitter fills in its guess);
-        "guess" - that guess, passed explicitly; "fit_model" - like "none",
-        but the hash is the one fit_model() stores."""
+        no initial parameters at all (the fitter fills in its guess; returns
+        hash and that guess); "guess" - the given `guess`, passed
+        explicitly; "fit_model" - like "none", but hash and parameters are
+        those fit_model() stores."""
         from nanite.fit import FP_DEFAULT
         fp = live.fit_properties
         f = curves.make_curve(cfg)
@@ -678,26 +688,34 @@ class HashWalkEngine:
             kw = {}
             mk = fp.get("model_key", FP_DEFAULT["model_key"])
             if pinit_mode != "explicit":
-                from nanite.fit import guess_initial_parameters
+                from nanite.fit import IndentationFitter
                 f.fit_properties["model_key"] = mk
-                if pinit_mode == "guess":
-                    f.fit_properties["params_initial"] = \
-                        guess_initial_parameters(idnt=f, model_key=mk)
                 keys = [k for k in SETTING_KEYS if k in fp
                         and k not in ("model_key", "params_initial")]
                 for k in keys:
                     kw[k] = _plain(fp[k])
-                if pinit_mode == "fit_model":
-                    # a fit that cannot be carried out stores no hash
-                    try:
-                        f.fit_model(**kw)
-                    except _caught():
-                        return None
-                    return f.fit_properties.get("hash")
                 try:
-                    return read_hash(f, **kw)
+                    if pinit_mode == "none":
+                        # -> (hash, the parameters this fitter decided on)
+                        ft = IndentationFitter(f, **kw)
+                        return ft.hash, copy.deepcopy(
+                            ft.fp["params_initial"])
+                    if pinit_mode == "guess":
+                        f.fit_properties["params_initial"] = \
+                            copy.deepcopy(guess)
+                        return read_hash(f, **kw)
                 except _caught() as e:
-                    return f"raises:{type(e).__name__}"
+                    return (f"raises:{type(e).__name__}", None) \
+                        if pinit_mode == "none" \
+                        else f"raises:{type(e).__name__}"
+                # "fit_model": a fit that cannot be carried out stores no
+                # hash
+                try:
+                    f.fit_model(**kw)
+                except _caught():
+                    return None, None
+                return f.fit_properties.get("hash"), copy.deepcopy(
+                    f.fit_properties.get("params_initial"))
             pinit = rebuild_params(fp["params_initial"], rng) \
                 if rng.random() < 0.6 else copy.deepcopy(
                     fp["params_initial"])
